@@ -129,6 +129,9 @@ func c08Run(r *run.Runner, c c08Case) {
 	w := sim.NewWorld(sim.WorldOpt{Inner: inner, Handler: func(uc *sim.UpCall, req *http.Request) *sim.Reply {
 		xa := req.Header.Get("X-A")
 		if xa != "" && xa != "chain" {
+			if uc.Conditional() {
+				return Render(&RespSpec{Status: 304, Vary: []string{"X-A"}, ETag: `"o` + xa + `"`}, uc.Enter, uc.Serial)
+			}
 			return Render(&RespSpec{Status: 200, CC: []string{"max-age=1000000"}, BodySize: 12, Vary: []string{"X-A"}, ETag: `"o` + xa + `"`}, uc.Enter, uc.Serial)
 		}
 		st := pending
@@ -216,6 +219,19 @@ func c08Run(r *run.Runner, c c08Case) {
 		}
 		if d := time.Until(lastValidated.Add(wait)); d > 0 {
 			time.Sleep(d)
+		}
+		// another variant is reloaded (foreground 304) now and then, so that the
+		// stored order of the variants differs from their Date order
+		if c.NOther > 0 && (si+len(c.Steps))%3 != 0 {
+			v := fmt.Sprintf("o%d", (si+1)%c.NOther)
+			h := hdr(v)
+			h["Cache-Control"] = []string{"no-cache"}
+			ov := w.Do(sim.ReqSpec{URL: url, Header: h})
+			r.Count("other_variant_reloads", 1)
+			if ov.BodySerial() != otherTok[v] {
+				r.Violation("other-variant-lost", "on-reload", fmt.Sprintf("reload of variant %s returned %s, stored token %s; %s", v, ov.BodySerial(), otherTok[v], ov.Summary()), obsOf())
+				otherTok[v] = ov.BodySerial()
+			}
 		}
 		pending = st
 		ex := w.Do(sim.ReqSpec{URL: url, Header: hdr("chain")})
